@@ -417,11 +417,25 @@ def _iteration(name):
       swept = []
       for _ in range(len(got)):
         swept.append(tuple(algo.propose().to_numbers()))
+      # an exhausted sweep stays exhausted: every later request ends with StopIteration as well
+      for _ in range(3):
+        try:
+          swept.append(('proposed after the end', tuple(algo.propose().to_numbers())))
+        except StopIteration:
+          pass
+      # ... also with feedback reported in between, and for a second, independent pass of the same generator class
+      algo2 = geno.Sweeping()
+      algo2.setup(spec)
+      again = []
       try:
-        algo.propose()
-        swept.append('no StopIteration')
+        while len(again) <= len(got):
+          d = algo2.propose()
+          algo2.feedback(d, 0.0)
+          again.append(tuple(d.to_numbers()))
       except StopIteration:
         pass
+      if again != swept[:len(got)]:
+        swept.append(('sweep with feedback differs', again[:3]))
       _ITER[name] = (got, swept, spec.space_size, sorted(_ref_enumerate(SPECS[name])))
   return _ITER[name]
 
